@@ -12,6 +12,14 @@
 //     the latest cell of each chain, homogeneous dimension, boundary of every chain zero or exactly another (earlier) chain,
 //     barcode read off that pairing == oracle
 //   * the returned value of the swap is truthful (see check_swap_return).
+//   * matrices with row access: get_row of every live cell == the transpose of the columns (see rows_ok)
+//   * matrices with representative cycles: after update_representative_cycles, one cycle per bar, and the cycle of every bar
+//     is a non-empty chain of the bar's dimension with zero boundary whose youngest cell is the birth cell (see observe_rep).
+// Two-argument swaps pass the later cell first in half of the calls.  1 case in 6 runs on a general Z_2 chain complex (cells of
+// positive dimension with empty / odd / shared boundaries), 1 case in 8 on a tiny complex that is emptied and refilled; chain
+// matrices with explicit ids re-use the ids of removed cells in half of the instances.  An RU matrix with identifier indexing
+// is accompanied by a position indexed twin (same options, same history) from which the precondition of
+// vine_swap_with_z_eq_1_case is read.
 #ifndef VERIF_C06_BODY_H_
 #define VERIF_C06_BODY_H_
 
@@ -34,7 +42,7 @@ using Gudhi::persistence_matrix::Column_types;
 typedef Column_indexation_types CI;
 
 // RA: 0 = no row access, 1 = intrusive rows, 2 = set rows
-template <Column_types CT, bool RU, CI IDX, bool BAR, bool REM, bool MAPC, int RA = 0, bool RR = false, bool DIMACC = false>
+template <Column_types CT, bool RU, CI IDX, bool BAR, bool REM, bool MAPC, int RA = 0, bool RR = false, bool DIMACC = false, bool REP = false>
 struct Opt {
   using Field_coeff_operators = Gudhi::persistence_fields::Zp_field_operators<>;
   using Index = unsigned int;
@@ -46,7 +54,7 @@ struct Opt {
   static const bool has_column_compression = false;
   static const bool has_column_and_row_swaps = false;
   static const bool has_vine_update = true;
-  static const bool can_retrieve_representative_cycles = false;
+  static const bool can_retrieve_representative_cycles = REP;
   static const bool has_row_access = (RA != 0);
   static const bool has_intrusive_rows = (RA != 2);
   static const bool has_removable_rows = RR;
@@ -55,6 +63,13 @@ struct Opt {
   static const bool has_matrix_maximal_dimension_access = DIMACC;
   static const bool has_column_pairings = BAR;
 };
+
+// the same options with container (= position, for RU matrices) indexing: the "twin" of an RU matrix with identifier indexing
+template <class O>
+struct TwinOpt : O {
+  static const Column_indexation_types column_indexation_type = Column_indexation_types::CONTAINER;
+};
+struct NoTwin {};
 
 template <class O>
 struct Flavour {
@@ -71,9 +86,18 @@ struct Flavour {
   static constexpr bool need_cmp = !ru && !bar;
   static constexpr bool has_u = ru && !by_id;
   static constexpr bool dimacc = O::has_matrix_maximal_dimension_access;
+  static constexpr bool rep = O::can_retrieve_representative_cycles;
+  static constexpr bool ra = O::has_row_access;
+  static constexpr bool rr = O::has_removable_rows;
+  // RU with identifier indexing: U cannot be read, a position indexed twin driven through the same history is read instead
+  static constexpr bool twin = ru && by_id;
+  // two-argument vine swaps whose arguments may come in either order (a chain matrix without stored barcode knows no position)
+  static constexpr bool can_reverse = !by_pos && (ru || bar);
+  // chain matrix without stored barcode behind the position overlay: the harness mirrors position -> internal column index
+  static constexpr bool mirror = need_cmp && by_pos;
   static std::string name() {
     return std::string(ru ? "ru" : "chain") + (by_id ? ",idx=id" : O::column_indexation_type == CI::POSITION ? ",idx=pos" : ",idx=cont") +
-           (bar ? ",bar" : ",nobar");
+           (bar ? ",bar" : ",nobar") + (rep ? ",rep" : "");
   }
 };
 
@@ -130,7 +154,12 @@ template <class O>
 struct Inst {
   typedef Gudhi::persistence_matrix::Matrix<O> M;
   typedef Flavour<O> F;
+  typedef typename std::conditional<F::twin, Gudhi::persistence_matrix::Matrix<TwinOpt<O>>, NoTwin>::type Twin;
   std::unique_ptr<M> m;
+  std::unique_ptr<Twin> twin;   // RU with identifier indexing, natural numbering only
+  std::vector<unsigned> mirror; // chain, position indexing, no stored barcode: internal column index at each position
+  unsigned next_index = 0;      //   ... and the internal index the next inserted column gets
+  bool reuse_ids = false;       // chain, explicit ids: a new cell gets (largest live id) + 1, i.e. ids of removed cells come back
   std::vector<unsigned> ids;    // id of the cell at each position (parallel to World::order)
   std::vector<unsigned> rowid;  // RU: row index attached to each position
   unsigned next_id = 0;         // every id used so far is < next_id
@@ -246,12 +275,31 @@ struct Driver {
       if (how == 0) in.m.reset(new M(cols, bc, dc));
       else if (how == 1) in.m.reset(new M(bc, dc));
       else in.m.reset(new M((unsigned)(w.size() + 3), bc, dc));
-      M* mp = in.m.get();
-      ctx->pivot_of = [mp](unsigned k) { return (unsigned)mp->get_pivot(k); };
+      if constexpr (F::mirror) {
+        // behind the position overlay the internal index of a column is only known through the mirror (the n-th inserted
+        // column has index n; a swap that returns true exchanges the columns of the two positions)
+        I* inp = &in;
+        CmpCtx* cp = ctx.get();
+        ctx->pivot_of = [inp, cp](unsigned k) {
+          for (size_t i = 0; i < inp->mirror.size() && i < cp->ids->size(); ++i) if (inp->mirror[i] == k) return (*cp->ids)[i];
+          return ~0u;
+        };
+      } else {
+        M* mp = in.m.get();
+        ctx->pivot_of = [mp](unsigned k) { return (unsigned)mp->get_pivot(k); };
+      }
     } else {
       if (how == 0) in.m.reset(new M(cols));
       else if (how == 1) in.m.reset(new M());
       else in.m.reset(new M((unsigned)(w.size() + 3)));
+    }
+    if constexpr (F::twin) {
+      typedef typename I::Twin T;
+      if (!in.gapped) {
+        if (how == 0) in.twin.reset(new T(cols));
+        else if (how == 1) in.twin.reset(new T());
+        else in.twin.reset(new T((unsigned)(w.size() + 3)));
+      }
     }
   }
 
@@ -263,6 +311,13 @@ struct Driver {
       if constexpr (F::ru) id = (unsigned)p; else id = in.next_id;
     } else {
       id = in.next_id + (in.gapped ? (unsigned)r.below(4) : 0u);
+      if constexpr (!F::ru) {
+        if (in.reuse_ids) {
+          id = 0;
+          for (unsigned v : in.ids) id = std::max(id, v + 1);
+          if (id < in.next_id) c.count("op.insert.id_reused");
+        }
+      }
       if constexpr (F::ru && F::by_id) {
         // natural numbering with identifier indexing: the identifier equal to the position when no live cell carries it
         if (!in.gapped && in.pos_of_id((unsigned)p) < 0) id = (unsigned)p;
@@ -282,6 +337,10 @@ struct Driver {
     } else {
       if (d < 0) in.m->insert_boundary(id, b); else in.m->insert_boundary(id, b, d);
     }
+    if constexpr (F::twin) {
+      if (in.twin) { if (d < 0) in.twin->insert_boundary(b); else in.twin->insert_boundary(b, d); }
+    }
+    if constexpr (F::mirror) in.mirror.push_back(in.next_index++);
     in.ids.push_back(id);
     if constexpr (F::ru) { in.rowid.push_back(id); if (id != (unsigned)p) in.ever_shifted = true; }
     in.next_id = std::max(in.next_id, id + 1);
@@ -302,9 +361,10 @@ struct Driver {
       if constexpr (F::ru && F::by_id) in->implicit = false;
       else if constexpr (F::ru) in->implicit = true;
       else in->implicit = r.chance(1, 2);
+      if constexpr (!F::ru && F::rem) in->reuse_ids = !in->implicit && r.chance(1, 2);
     }
     c.log(std::string("BUILD ") + (fresh ? "fresh" : "walked") + " how=" + std::to_string(how) + " ids=" + ids_name(in->gapped, in->implicit) +
-          " n=" + std::to_string(w.size()));
+          (in->reuse_ids ? "(reused)" : "") + " n=" + std::to_string(w.size()));
     if (how == 0) {
       std::vector<std::vector<unsigned>> cols;
       for (int i = 0; i < w.size(); ++i) {
@@ -314,7 +374,9 @@ struct Driver {
         cols.push_back(b);
         in->ids.push_back((unsigned)i);
         if constexpr (F::ru) in->rowid.push_back((unsigned)i);
+        if constexpr (F::mirror) in->mirror.push_back((unsigned)i);
       }
+      in->next_index = (unsigned)w.size();
       in->next_id = (unsigned)w.size();
       make_matrix(*in, 0, cols);
     } else {
@@ -365,10 +427,105 @@ struct Driver {
       if (!full_step) { c.count("obs.ru.light_only"); ++in.unread_steps; return true; }
       bool ok = observe_ru(in);
       in.unread_steps = 0;
+      if constexpr (F::rep && F::bar) ok = ok && observe_rep(in);
       return ok;
     } else {
-      return observe_chain(in);
+      bool ok = observe_chain(in);
+      if constexpr (F::rep && F::bar) ok = ok && observe_rep(in);
+      return ok;
     }
+  }
+
+  // Rows (matrices with row access): the row of every live cell lists exactly the entries the columns have in that row.
+  // fromCols: row label -> column indices (as used with get_column) having an entry there.  `native`: the column indices
+  // stored in the entries are the ones of the public interface (no overlay in between); otherwise only the number of
+  // entries is compared.  Rows kept in a vector (no removable rows) exist up to the last one that ever received an entry:
+  // labels beyond the last currently non-empty row are skipped.
+  template <class GetRow>
+  bool rows_ok(I& in, const std::map<unsigned, std::set<unsigned>>& fromCols, const std::vector<unsigned>& labels, bool native,
+               const std::string& what, GetRow&& get_row) {
+    unsigned maxLabel = 0; bool any = false;
+    for (auto& kv : fromCols) if (!kv.second.empty()) { maxLabel = std::max(maxLabel, kv.first); any = true; }
+    static const std::set<unsigned> none;
+    for (unsigned label : labels) {
+      if constexpr (!F::rr) { if (!any || label > maxLabel) { c.count("skip.row.maybe_unallocated"); continue; } }
+      auto it = fromCols.find(label);
+      const std::set<unsigned>& want = it == fromCols.end() ? none : it->second;
+      std::set<unsigned> got; size_t cnt = 0; bool missing = false, wrong_label = false;
+      try {
+        for (auto& e : get_row(label)) { ++cnt; got.insert((unsigned)e.get_column_index()); if ((unsigned)e.get_row_index() != label) wrong_label = true; }
+      } catch (const std::out_of_range&) { missing = true; }
+      c.count("cmp.row");
+      if (missing) {
+        if (!F::rr || !want.empty()) return fail(in, "rows." + what + ".missing", "get_row(" + vh::str(label) + ") throws out_of_range but the columns have " + vh::str(want.size()) + " entries in that row");
+        continue;
+      }
+      if (wrong_label) return fail(in, "rows." + what + ".row_index", "an entry of get_row(" + vh::str(label) + ") reports another row index");
+      bool bad = native ? (got != want || cnt != want.size()) : cnt != want.size();
+      if (bad) {
+        std::set<int> g(got.begin(), got.end()), x(want.begin(), want.end());
+        return fail(in, "rows." + what, "get_row(" + vh::str(label) + ") has " + vh::str(cnt) + " entries in columns " + show_set(g) + " but the columns with an entry in that row are " + show_set(x));
+      }
+    }
+    return true;
+  }
+
+  // Representative cycles after the history (C08 performs no vine swap): by definition the representative of a bar is a
+  // non-empty chain of cells of the bar's dimension with zero boundary over Z_2 whose youngest cell is the bar's birth cell.
+  bool cycle_positions(I& in, const std::vector<unsigned>& cyc, std::set<int>& pos, std::string& why) {
+    for (unsigned rw : cyc) {
+      int p;
+      if constexpr (F::ru) p = in.pos_of_row(rw); else p = in.pos_of_id(rw);
+      if (p < 0) { why = "contains row " + vh::str(rw) + " which is no current cell"; return false; }
+      if (!pos.insert(p).second) { why = "lists row " + vh::str(rw) + " twice"; return false; }
+    }
+    return true;
+  }
+  bool observe_rep(I& in) {
+    try {
+      return observe_rep_inner(in);
+    } catch (const std::exception& e) {
+      return fail(in, "repcycle.exception", std::string("exception from update_representative_cycles / get_representative_cycle(s): ") + e.what());
+    }
+  }
+  bool observe_rep_inner(I& in) {
+    M& m = *in.m;
+    m.update_representative_cycles();
+    // the whole family first: one cycle per bar, the youngest cells are the birth cells
+    std::vector<int> births;
+    for (const auto& b : bars) births.push_back(b.birth);
+    std::sort(births.begin(), births.end());
+    std::vector<int> youngest;
+    const auto& all = m.get_representative_cycles();
+    c.count("cmp.repcycle.family");
+    for (const auto& cyc : all) {
+      std::set<int> pos; std::string why;
+      if (!cycle_positions(in, std::vector<unsigned>(cyc.begin(), cyc.end()), pos, why)) return fail(in, "repcycle.row_unknown", "a cycle of get_representative_cycles() " + why);
+      if (pos.empty()) return fail(in, "repcycle.empty", "get_representative_cycles() contains an empty cycle");
+      youngest.push_back(*pos.rbegin());
+    }
+    std::sort(youngest.begin(), youngest.end());
+    if (youngest != births) {
+      std::set<int> y(youngest.begin(), youngest.end()), b(births.begin(), births.end());
+      return fail(in, "repcycle.family", vh::str(all.size()) + " cycles for " + vh::str(births.size()) + " bars; youngest cells of the cycles " + show_set(y) + " births of the bars " + show_set(b));
+    }
+    for (const auto& bar : m.get_current_barcode()) {
+      c.count("cmp.repcycle");
+      const auto& cyc = m.get_representative_cycle(bar);
+      std::set<int> pos; std::string why;
+      std::string bs = "representative of the bar (dim " + vh::str(bar.dim) + ", birth " + vh::str(bar.birth) + ") ";
+      if (!cycle_positions(in, std::vector<unsigned>(cyc.begin(), cyc.end()), pos, why)) return fail(in, "repcycle.row_unknown", bs + why);
+      if (pos.empty()) return fail(in, "repcycle.empty", bs + "is empty");
+      if (*pos.rbegin() != (int)bar.birth) return fail(in, "repcycle.youngest_not_birth", bs + "is " + show_set(pos) + " (positions): its youngest cell is not the birth cell");
+      std::set<int> bd;
+      for (int p : pos) {
+        if (w.order[p].dim != bar.dim) return fail(in, "repcycle.dimension", bs + "= " + show_set(pos) + " contains a cell of dimension " + vh::str(w.order[p].dim));
+        std::set<int> b; for (int f : w.order[p].faces) b.insert(w.pos_of_key(f));
+        xor_into(bd, b);
+      }
+      if (!bd.empty()) return fail(in, "repcycle.not_a_cycle", bs + "= " + show_set(pos) + " has boundary " + show_set(bd));
+    }
+    return true;
   }
 
   bool derived_bars_ok(I& in, const std::vector<int>& partner_birth, const std::string& what) {
@@ -392,12 +549,14 @@ struct Driver {
     std::vector<std::set<int>> R(n), U(n), U2(n), B(n);
     std::vector<int> low(n, -1);
     std::map<int, int> owner;
+    std::map<unsigned, std::set<unsigned>> rowsR, rowsU;  // row label -> columns with an entry there (row access only)
     for (int j = 0; j < n; ++j) {
       unsigned cj = in.col(j);
       for (int f : w.order[j].faces) B[j].insert(w.pos_of_key(f));
       std::vector<unsigned> rows;
       if constexpr (F::has_u) rows = content(m.get_column(cj, true), len); else rows = content(m.get_column(cj), len);
       for (unsigned row : rows) {
+        if constexpr (F::ra) rowsR[row].insert(cj);
         int p = in.pos_of_row(row);
         if (p < 0) return fail(in, "ru.R_row_unknown", "R column of position " + vh::str(j) + " has an entry in row " + vh::str(row) + " which is no current row");
         R[j].insert(p);
@@ -422,6 +581,7 @@ struct Driver {
         // or the position itself); entries in rows that belong to no current cell (left behind by a removal) are ignored
         // here - if they ever become live again the factorisation below fails.
         for (unsigned row : content(m.get_column(cj, false), len)) {
+          if constexpr (F::ra) rowsU[row].insert(cj);
           int p = in.pos_of_row(row);
           if (p >= 0) U[j].insert(p); else c.count("obs.ru.U_entry_in_dead_row");
           if ((int)row < n) U2[j].insert((int)row);
@@ -471,6 +631,14 @@ struct Driver {
         return fail(in, "ru.factorisation", d);
       }
     }
+    if constexpr (F::ra) {
+      if constexpr (F::has_u) {
+        if (!rows_ok(in, rowsR, in.rowid, true, "R", [&](unsigned label) -> decltype(auto) { return m.get_row(label, true); })) return false;
+        if (!rows_ok(in, rowsU, in.rowid, true, "U", [&](unsigned label) -> decltype(auto) { return m.get_row(label, false); })) return false;
+      } else {
+        if (!rows_ok(in, rowsR, in.rowid, false, "R", [&](unsigned label) -> decltype(auto) { return m.get_row(label); })) return false;
+      }
+    }
     return true;
   }
 
@@ -480,6 +648,7 @@ struct Driver {
     const unsigned len = in.next_id + 1;
     std::vector<std::set<int>> C(n), D(n);  // chains and their boundaries, as sets of positions
     std::map<std::set<int>, int> chain_at;
+    std::map<unsigned, std::set<unsigned>> rowsC;  // row label (cell id) -> columns with an entry there (row access only)
     std::vector<unsigned> cols(n);
     for (int p = 0; p < n; ++p) {
       unsigned id = in.ids[p];
@@ -495,6 +664,7 @@ struct Driver {
       if (pv != id) return fail(in, "chain.get_pivot", "column " + vh::str(k) + " of cell id " + vh::str(id) + " has get_pivot=" + vh::str(pv));
       auto& col = m.get_column(k);
       for (unsigned row : content(col, len)) {
+        if constexpr (F::ra) rowsC[row].insert(k);
         int q = in.pos_of_id(row);
         if (q < 0) return fail(in, "chain.row_unknown", "chain with pivot id " + vh::str(id) + " contains row " + vh::str(row) + " which is no current cell");
         C[p].insert(q);
@@ -533,6 +703,9 @@ struct Driver {
         }
       }
     }
+    if constexpr (F::ra) {
+      if (!rows_ok(in, rowsC, in.ids, F::by_mat, "chain", [&](unsigned label) -> decltype(auto) { return m.get_row(label); })) return false;
+    }
     return derived_bars_ok(in, partner_birth, "chain.barcode_from_chains");
   }
 
@@ -558,13 +731,19 @@ struct Driver {
     if (w.order[i].dim != w.order[i + 1].dim) return 0;
     if constexpr (F::ru) {
       if constexpr (F::has_u) return in.m->is_zero_entry(in.col(i), in.rowid[i + 1], false) ? 0 : 1;
+      else if constexpr (F::twin) {
+        // identifier indexing: the entry of U is read in the position indexed twin that went through the same history
+        if (!in.twin) return -1;
+        return in.twin->is_zero_entry((unsigned)i, in.rowid[i + 1], false) ? 0 : 1;
+      }
       else return -1;
     } else {
       return in.m->is_zero_entry(in.col(i + 1), in.ids[i]) ? 0 : 1;
     }
   }
 
-  struct SwapRet { bool is_bool = true; bool b = false; unsigned idx = 0; unsigned c1 = 0, c2 = 0; bool threw = false; std::string what; };
+  // c1, c2: the arguments as passed; c_early: the column of the cell that was at the earlier position
+  struct SwapRet { bool is_bool = true; bool b = false; unsigned idx = 0; unsigned c1 = 0, c2 = 0, c_early = 0; bool rev = false; bool threw = false; std::string what; };
 
   void set_ctx(I& in, int moving_pos, const std::vector<unsigned>& ids_before, const World& w_before) {
     if constexpr (F::need_cmp) {
@@ -572,7 +751,7 @@ struct Driver {
     }
   }
 
-  SwapRet do_swap(I& in, int i, bool z1) {
+  SwapRet do_swap(I& in, int i, bool z1, bool rev) {
     SwapRet ret;
     M& m = *in.m;
     try {
@@ -582,9 +761,15 @@ struct Driver {
         ret.b = z1 ? m.vine_swap_with_z_eq_1_case((unsigned)i) : m.vine_swap((unsigned)i);
       } else {
         ret.is_bool = false;
-        ret.c1 = in.col(i); ret.c2 = in.col(i + 1);
+        ret.c_early = in.col(i);
+        ret.c1 = ret.c_early; ret.c2 = in.col(i + 1);
+        ret.rev = rev;
+        if (rev) std::swap(ret.c1, ret.c2);
         c.log(std::string("  [") + (in.fresh ? "fresh" : "walked") + "] " + (z1 ? "vine_swap_with_z_eq_1_case(" : "vine_swap(") + std::to_string(ret.c1) + "," + std::to_string(ret.c2) + ")");
         ret.idx = z1 ? m.vine_swap_with_z_eq_1_case(ret.c1, ret.c2) : m.vine_swap(ret.c1, ret.c2);
+      }
+      if constexpr (F::twin) {
+        if (in.twin) { if (z1) in.twin->vine_swap_with_z_eq_1_case((unsigned)i); else in.twin->vine_swap((unsigned)i); }
       }
     } catch (const std::exception& e) {
       ret.threw = true; ret.what = e.what();
@@ -595,9 +780,12 @@ struct Driver {
   // Truthfulness of the returned value.  kept = the two cells kept their bars (new barcode = old one with the two positions
   // exchanged), exchanged = they traded them (barcode in positions unchanged); exactly one holds (decided by the oracle).
   //  - bool interface (RU by position, chain with position indexing): true <=> kept.
-  //  - RU with identifier indexing: first argument <=> kept, second argument <=> exchanged.
+  //  - RU with identifier indexing, arguments given as (earlier cell, later cell): first argument <=> kept, second argument
+  //    <=> exchanged.  With the arguments in the other order no convention is documented ("first argument" and "the cell
+  //    that was earlier" are both defensible): there the value only has to be one of the two arguments.
   //  - chain, container indexing: the returned column r is one of the two arguments, it now carries the cell that moved to
-  //    the later position (get_pivot(r) == that cell), and r == first argument <=> kept (the columns carry the pairing).
+  //    the later position (get_pivot(r) == that cell), and r == the column of the cell that was earlier <=> kept (the
+  //    columns carry the pairing), whatever the order of the arguments.
   //  - chain, identifier indexing: indices are cell ids, so "the column which now has the later position" is the cell that
   //    moved there, i.e. the first argument, whatever happened to the bars.
   bool check_swap_return(I& in, const SwapRet& ret, bool kept, bool determined, unsigned id_moved_up) {
@@ -608,11 +796,12 @@ struct Driver {
     }
     if (ret.idx != ret.c1 && ret.idx != ret.c2) return fail(in, "swap.return_not_an_argument", "returned " + vh::str(ret.idx) + " for arguments (" + vh::str(ret.c1) + "," + vh::str(ret.c2) + ")");
     if constexpr (F::ru) {
+      if (ret.rev) { c.count("cmp.swap_return.ru_id_reversed_unjudged"); return true; }
       if (determined && (ret.idx == ret.c1) != kept) return fail(in, "swap.return", "returned " + vh::str(ret.idx) + " for arguments (" + vh::str(ret.c1) + "," + vh::str(ret.c2) + ") but the oracle says the cells " + (kept ? "kept" : "exchanged") + " their bars");
     } else if constexpr (F::by_mat) {
       unsigned pv = in.m->get_pivot(ret.idx);
       if (pv != id_moved_up) return fail(in, "swap.return_pivot", "returned column " + vh::str(ret.idx) + " has pivot " + vh::str(pv) + " but the cell now at the later position is id " + vh::str(id_moved_up));
-      if (determined && (ret.idx == ret.c1) != kept) return fail(in, "swap.return", "returned " + vh::str(ret.idx) + " for arguments (" + vh::str(ret.c1) + "," + vh::str(ret.c2) + ") but the oracle says the cells " + (kept ? "kept" : "exchanged") + " their bars");
+      if (determined && (ret.idx == ret.c_early) != kept) return fail(in, "swap.return", "returned " + vh::str(ret.idx) + " for arguments (" + vh::str(ret.c1) + "," + vh::str(ret.c2) + ") but the oracle says the cells " + (kept ? "kept" : "exchanged") + " their bars");
     } else {
       if (ret.idx != id_moved_up) return fail(in, "swap.return", "returned " + vh::str(ret.idx) + " but the cell now at the later position is id " + vh::str(id_moved_up));
     }
@@ -633,8 +822,12 @@ struct Driver {
     // cell owns which bar): then either returned value is truthful.  Neither can only be an oracle / harness error.
     if (!kept && !exch) { c.violation("harness.oracle_dichotomy", "swap", "oracle barcodes are neither kept nor exchanged: old " + show_bars(old_bars) + " new " + show_bars(new_bars)); return false; }
     const bool determined = kept != exch;
+    // two-argument interfaces: the documentation does not fix an order of the two cells, so half of the calls pass the
+    // later cell first (not for a chain matrix without stored barcode, which has no way to know the positions)
+    bool rev = false;
+    if constexpr (F::can_reverse) rev = r.chance(1, 2);
     lastop = z1 ? "swap_z1" : "swap";
-    lastcls = cls + (!determined ? ",exp=any" : kept ? ",exp=kept" : ",exp=exchanged");
+    lastcls = cls + (!determined ? ",exp=any" : kept ? ",exp=kept" : ",exp=exchanged") + (rev ? ",args=reversed" : "");
     c.log(std::string(z1 ? "SWAP_Z1 " : "SWAP ") + std::to_string(i) + " cls=" + lastcls);
     std::vector<SwapRet> rets;
     std::vector<std::vector<unsigned>> ids_before;
@@ -649,7 +842,7 @@ struct Driver {
         if (k == 0) c.count(std::string(F::ru ? "swapcls.ru." : "swapcls.chain.") + (z1 ? "z1." : "") + cls + (!determined ? ",any" : kept ? ",kept" : ",exch"));
       }
       set_ctx(in, i, ids_before[k], w_before);
-      rets.push_back(do_swap(in, i, z1));
+      rets.push_back(do_swap(in, i, z1, rev));
     }
     w = w_after; bars = new_bars;
     for (size_t k = 0; k < insts.size(); ++k) {
@@ -658,10 +851,17 @@ struct Driver {
       std::swap(in.ids[i], in.ids[i + 1]);
       in.did_swap = true;
       if (rets[k].threw) return fail(in, "swap.exception", "exception: " + rets[k].what);
+      if constexpr (F::mirror) { if (rets[k].b) std::swap(in.mirror[i], in.mirror[i + 1]); }
       if (!check_swap_return(in, rets[k], kept, determined, moved_up)) return false;
       if (!observe(in)) return false;
     }
     c.count(z1 ? "op.swap_z1" : "op.swap");
+    if (rev) c.count(z1 ? "op.swap_z1.args_reversed" : "op.swap.args_reversed");
+    if constexpr (F::twin) { if (z1) c.count("op.swap_z1.ru_id"); }
+    if constexpr (F::mirror) c.count("op.swap.chain_pos_nobar");
+    if constexpr (F::ru && !F::rem) c.count("op.swap.ru_norem");
+    if constexpr (!F::ru && F::rem && !F::mapc) c.count("op.swap.chain_rem_vec");
+    if (w.general) c.count("op.swap.general_complex");
     ++n_swaps; if (samedim) ++n_samedim; if (exch && determined) ++n_exch;
     return true;
   }
@@ -696,6 +896,9 @@ struct Driver {
       c.count(unsorted ? "op.insert.idorder_unsorted" : "op.insert.idorder_sorted");
     }
     lastop = "insert"; lastcls = "dim" + std::to_string(cell.dim);
+    if (w.size() == 0 && was_emptied) c.count("op.insert.into_emptied");
+    if (cell.dim > 0 && cell.faces.empty()) c.count("op.insert.empty_boundary_dim_gt0");
+    else if (cell.dim > 0 && (int)cell.faces.size() != cell.dim + 1) c.count("op.insert.non_simplicial_boundary");
     c.log("INSERT key=" + std::to_string(cell.key) + " dim=" + std::to_string(cell.dim));
     w.push(cell);
     for (auto& in : insts) {
@@ -723,7 +926,8 @@ struct Driver {
         // filtration when it carries the largest identifier.  Otherwise it is called only once in a while (see above).
         bool bad = false;
         for (auto& in : insts) if (in->note == "last_not_max_id") bad = true;
-        if (bad && !r.chance(1, 12)) { c.count("skip.remove_last.nobar_chain_last_not_max_id"); return true; }
+        // (behind the position overlay it is the same known defect: never called there)
+        if (bad && (F::mirror || !r.chance(1, 12))) { c.count("skip.remove_last.nobar_chain_last_not_max_id"); return true; }
       }
       for (auto& in : insts) c.count("op.remove_last." + in->note);
       c.log("REMOVE_LAST " + insts[0]->note);
@@ -735,12 +939,17 @@ struct Driver {
         I& in = *insts[k];
         set_ctx(in, p, ids_before[k], w_before);
         c.log(std::string("  [") + (in.fresh ? "fresh" : "walked") + "] remove_last()");
-        try { in.m->remove_last(); } catch (const std::exception& e) { return fail(in, "remove_last.exception", std::string("exception: ") + e.what()); }
+        try {
+          in.m->remove_last();
+          if constexpr (F::twin) { if (in.twin) in.twin->remove_last(); }
+        } catch (const std::exception& e) { return fail(in, "remove_last.exception", std::string("exception: ") + e.what()); }
       }
       w.erase_at(p);
       bars = w.bars();
+      if (w.size() == 0) { c.count("state.emptied"); was_emptied = true; }
       for (auto& in : insts) {
         in->ids.pop_back();
+        if constexpr (F::mirror) in->mirror.pop_back();
         if constexpr (F::ru) in->rowid.pop_back();
         in->did_remove = true;
         if (!observe(*in)) return false;
@@ -782,6 +991,7 @@ struct Driver {
               else arg = in.ids[p];                                 // chain: IDIdx
               c.log(std::string("  [") + (in.fresh ? "fresh" : "walked") + "] remove_maximal_cell(" + std::to_string(arg) + ")");
               in.m->remove_maximal_cell(arg);
+              if constexpr (F::twin) { if (in.twin) in.twin->remove_maximal_cell((unsigned)p); }
             }
           } else {
             if constexpr (F::can_rmc2) {
@@ -795,6 +1005,7 @@ struct Driver {
       }
       w.erase_at(p);
       bars = w.bars();
+      if (w.size() == 0) { c.count("state.emptied"); was_emptied = true; }
       for (auto& in : insts) {
         in->ids.erase(in->ids.begin() + p);
         if constexpr (F::ru) in->rowid.pop_back();
@@ -821,6 +1032,7 @@ struct Driver {
   }
 
   int lastswap_step = -10;
+  bool was_emptied = false;  // the complex went down to 0 cells at some point
 
   void run() {
     cellular = r.chance(1, 3);
@@ -828,9 +1040,19 @@ struct Driver {
     max_vertices = 4 + (int)r.below(4);
     int n0;
     { unsigned x = (unsigned)r.below(10); n0 = x < 3 ? (int)r.range(2, 8) : x < 8 ? (int)r.range(8, 20) : (int)r.range(20, 36); }
+    // 1 case in 6: a general Z_2 chain complex instead of a simplicial / CW one (see World::propose_general);
+    // 1 case in 8: a tiny complex (0-3 cells) with as many removals as insertions, so that the matrix is emptied and refilled
+    const bool general = r.chance(1, 6);
+    const bool small = r.chance(1, 8);
+    w.general = general;
+    if (general) cellular = false;
+    if (small) n0 = (int)r.range(0, 3);
+    if (general) c.count("case.general_complex");
+    if (small) c.count("case.small");
+    const unsigned t_swap = small ? 30 : 60, t_insert = small ? 58 : 72, t_rlast = small ? 80 : 82, t_rmax = 94;
     w.generate(r, n0, cellular, max_vertices);
     bars = w.bars();
-    c.log("WORLD cellular=" + std::to_string(cellular) + " pass_dim=" + std::to_string(pass_dim) + " n=" + std::to_string(w.size()));
+    c.log("WORLD cellular=" + std::to_string(cellular) + " general=" + std::to_string(general) + " small=" + std::to_string(small) + " pass_dim=" + std::to_string(pass_dim) + " n=" + std::to_string(w.size()));
     lastop = "build"; lastcls = "";
     try { insts.push_back(build(false)); } catch (const std::exception& e) { c.violation("build.exception", F::name(), e.what()); return; }
     if (!observe(*insts[0])) return;
@@ -841,7 +1063,7 @@ struct Driver {
       full_step = (s + 1 == steps) || r.chance(1, 2);
       unsigned x = (unsigned)r.below(100);
       bool ok = true;
-      if (x < 60) {
+      if (x < t_swap) {
         // a transposition; prefer same-dimension pairs (the only ones with a case analysis)
         std::vector<int> adm, same;
         for (int i = 0; i + 1 < w.size(); ++i) if (w.swap_admissible(i)) { adm.push_back(i); if (w.order[i].dim == w.order[i + 1].dim) same.push_back(i); }
@@ -850,7 +1072,7 @@ struct Driver {
         // sometimes continue to push the same cell upwards (long vines)
         if (lastswap_step == s - 1 && lastswap_pos + 1 < w.size() - 1 && w.swap_admissible(lastswap_pos + 1) && r.chance(1, 3)) i = lastswap_pos + 1;
         bool z1 = false;
-        if (x < 15) {
+        if (x < t_swap / 4) {
           // vine_swap_with_z_eq_1_case only where every live matrix fulfils its precondition
           int okc = 1;
           for (auto& in : insts) { int q = z1_precondition(*in, i); if (q <= 0) okc = q; }
@@ -863,9 +1085,9 @@ struct Driver {
         }
         ok = step_swap(i, z1);
         lastswap_step = s; lastswap_pos = i;
-      } else if (x < 72) ok = step_insert();
-      else if (x < 82) ok = step_remove_last();
-      else if (x < 94) ok = step_remove_maximal();
+      } else if (x < t_insert) ok = step_insert();
+      else if (x < t_rlast) ok = step_remove_last();
+      else if (x < t_rmax) ok = step_remove_maximal();
       else ok = step_fork();
       if (!ok) return;
     }
